@@ -556,6 +556,23 @@ def merged_and_standalone_stream(ctx, res):
                 judge({"stream": "merged-standalone", "what": "replace-existing-entry", "where": where, "bad": bad_kind, "route": route}, got, want, "replace-existing-entry")
         got = outcome(lambda: owner.quota.__setitem__(["cpu"], 1))
         judge({"stream": "merged-standalone", "what": "replace-existing-entry", "where": where, "bad": "unhashable-key"}, got, "%s.quota[['cpu']]" % pre, "replace-existing-entry")
+    # (a4) item configurations that are the per-configuration copies of OBJECTS declared in a list default (with a nested section of their
+    # own): rejections in the item and below it name the path from the root, in each of two live configurations
+    for typed in (False, True):
+        ep = cc.Schema()
+        ep.host = cc.StringField(default="h")
+        ep.tls.port = cc.IntField(default=443)
+        ep.tls.ca.path = cc.StringField(default="/ca")
+        E = cc.make_type(ep, "DefEp") if typed else ep
+        s = cc.Schema()
+        s.net.endpoints = cc.ListField(E, default=[E(host="a"), E(host="b")])
+        for which, c in (("first", s()), ("second", s())):
+            for route, act, want in (("attr", lambda c=c: setattr(c.net.endpoints[1].tls, "port", "x"), "net.endpoints[1].tls.port"),
+                                     ("dotted", lambda c=c: c.net.endpoints[1].__setitem__("tls.ca.path", 5), "net.endpoints[1].tls.ca.path"),
+                                     ("item-field", lambda c=c: setattr(c.net.endpoints[0], "host", 5), "net.endpoints[0].host"),
+                                     ("load_tree", lambda c=c: c.net.endpoints[1].load_tree({"tls": {"port": "x"}}), "net.endpoints[1].tls.port")):
+                got = outcome(act)
+                judge({"stream": "merged-standalone", "what": "default-item-object", "config_type": typed, "configuration": which, "route": route}, got, want, "default-item-object")
     # (b)
     for depth in (1, 2, 3, 4):
         names = ["net", "http", "tls", "opts"][:depth]
